@@ -72,7 +72,7 @@ impl CredCfg {
 }
 
 #[derive(Clone, Debug, PartialEq, Eq, Hash)]
-enum Mutn {
+pub enum Mutn {
     None,
     Drop,
     Dup,
@@ -87,14 +87,16 @@ enum Mutn {
     Delete(u8),
     TruncateAt(u8),
     Transplant(u8),
+    /// replace the value bytes of a field (same length) - used for invalid curve points
+    ReplaceValue(u8, Vec<u8>),
 }
 
 /// Which datagram: n-th first-transmission from `from` with secure-channel opcode `opcode`.
 #[derive(Clone, Debug, PartialEq, Eq, Hash)]
-struct Target {
-    from: usize,
-    opcode: u8,
-    nth: usize,
+pub struct Target {
+    pub from: usize,
+    pub opcode: u8,
+    pub nth: usize,
 }
 
 #[derive(Clone, Debug)]
@@ -284,7 +286,7 @@ fn sessions_of(m: &Matter<'_>) -> (Vec<SessSum>, usize) {
     })
 }
 
-fn sc_opcode(d: &[u8]) -> Option<(u8, usize)> {
+pub fn sc_opcode(d: &[u8]) -> Option<(u8, usize)> {
     let p = parse_plain(d)?;
     if p.sess_id != 0 {
         return None;
@@ -296,7 +298,7 @@ fn sc_opcode(d: &[u8]) -> Option<(u8, usize)> {
     Some((pr.opcode, pr.payload))
 }
 
-fn matches(t: &Target, d: &Dgram, seen: &mut Vec<(usize, u8, u32)>) -> Option<usize> {
+pub fn matches(t: &Target, d: &Dgram, seen: &mut Vec<(usize, u8, u32)>) -> Option<usize> {
     // count first transmissions only (distinct counters) per (from, opcode)
     let (op, _) = sc_opcode(&d.bytes)?;
     let ctr = parse_plain(&d.bytes)?.ctr;
@@ -312,7 +314,7 @@ fn matches(t: &Target, d: &Dgram, seen: &mut Vec<(usize, u8, u32)>) -> Option<us
 }
 
 /// Apply a mutation to the datagram bytes; `other` is the corresponding datagram of another honest run.
-fn mutate(bytes: &[u8], m: &Mutn, other: Option<&[u8]>) -> Option<Vec<u8>> {
+pub fn mutate(bytes: &[u8], m: &Mutn, other: Option<&[u8]>) -> Option<Vec<u8>> {
     let (_, pay) = sc_opcode(bytes)?;
     let fields = top_fields(&bytes[pay..]);
     let field = |tag: u8| fields.iter().find(|f| f.0 == tag).map(|f| (pay + f.1, pay + f.2, pay + f.3));
@@ -367,6 +369,15 @@ fn mutate(bytes: &[u8], m: &Mutn, other: Option<&[u8]>) -> Option<Vec<u8>> {
             let mut v = bytes[..s].to_vec();
             v.extend_from_slice(&o[os..oe]);
             v.extend_from_slice(&bytes[e..]);
+            Some(v)
+        }
+        Mutn::ReplaceValue(tag, val) => {
+            let (_, e, vs) = field(*tag)?;
+            if e - vs != val.len() || bytes[vs..e] == val[..] {
+                return None;
+            }
+            let mut v = bytes.to_vec();
+            v[vs..e].copy_from_slice(val);
             Some(v)
         }
         Mutn::Stale => {
@@ -474,7 +485,7 @@ fn run(spec: &RunSpec, other_wire: Option<&[Dgram]>) -> Result<Summary, String> 
     Ok(Summary { i_sessions, r_sessions, i_reserved_left: i_res, r_reserved_left: r_res, results: obs.0.clone(), client_done: obs.1, wire, applied, storm })
 }
 
-fn nth_of(wire: &[Dgram], from: usize, op: u8, nth: usize) -> Option<&Dgram> {
+pub fn nth_of(wire: &[Dgram], from: usize, op: u8, nth: usize) -> Option<&Dgram> {
     let mut seen: Vec<u32> = Vec::new();
     for d in wire {
         if d.from != from {
@@ -510,6 +521,7 @@ fn judge(spec: &RunSpec, honest: Option<&Summary>, s: &Summary) -> Vec<(String, 
             Mutn::Delete(_) => "field-deleted".to_string(),
             Mutn::TruncateAt(_) => "truncated".to_string(),
             Mutn::Transplant(_) => "field-transplanted".to_string(),
+            Mutn::ReplaceValue(..) => "field-replaced".to_string(),
             other => format!("{:?}", other).to_lowercase(),
         }),
     };
@@ -578,6 +590,10 @@ fn judge(spec: &RunSpec, honest: Option<&Summary>, s: &Summary) -> Vec<(String, 
         }
     }
     v
+}
+
+pub fn mutation_catalog_of(wire: &[Dgram], every_bit: bool) -> Vec<(Target, Mutn)> {
+    mutation_catalog(&Summary { wire: wire.to_vec(), ..Default::default() }, every_bit)
 }
 
 fn mutation_catalog(honest: &Summary, every_bit: bool) -> Vec<(Target, Mutn)> {
@@ -649,12 +665,17 @@ fn all_creds() -> Vec<CredCfg> {
     ]
 }
 
-fn parse_mutn(s: &str) -> Mutn {
+pub fn parse_mutn(s: &str) -> Mutn {
     let num = |s: &str| s.trim_end_matches(')').split('(').nth(1).and_then(|x| x.parse::<usize>().ok()).unwrap_or(0);
     if s.starts_with("FlipBit") {
         let inner = s.trim_start_matches("FlipBit(").trim_end_matches(')');
         let mut it = inner.split(',').map(|x| x.trim().parse::<usize>().unwrap_or(0));
         Mutn::FlipBit(it.next().unwrap_or(0), it.next().unwrap_or(0) as u8)
+    } else if s.starts_with("ReplaceValue") {
+        let inner = s.trim_start_matches("ReplaceValue(").trim_end_matches(')');
+        let (tag, rest) = inner.split_once(',').unwrap_or(("0", "[]"));
+        let bytes: Vec<u8> = rest.trim().trim_start_matches('[').trim_end_matches(']').split(',').filter_map(|x| x.trim().parse::<u8>().ok()).collect();
+        Mutn::ReplaceValue(tag.trim().parse().unwrap_or(0), bytes)
     } else if s.starts_with("FlipByte") {
         Mutn::FlipByte(num(s))
     } else if s.starts_with("FlipFirst") {
